@@ -1,6 +1,11 @@
 use crate::{device::Device, expr::Expr, instruction::register::Reg8, parser::SegmentType};
 
-use std::{cell::RefCell, collections::HashMap, rc::Rc};
+use std::{
+    cell::RefCell,
+    collections::{BTreeSet, HashMap},
+    path::PathBuf,
+    rc::Rc,
+};
 
 use maplit::hashmap;
 
@@ -60,6 +65,9 @@ pub struct CommonContext {
     pub special: Rc<RefCell<HashMap<String, Expr>>>,
     // device
     pub device: Rc<RefCell<Option<Device>>>,
+    // directories in which included files are looked for, known at the end of parsing:
+    // includes in bodies of macros are processed later
+    pub include_paths: Rc<RefCell<BTreeSet<PathBuf>>>,
 }
 
 impl CommonContext {
@@ -72,6 +80,7 @@ impl CommonContext {
             sets: Rc::new(RefCell::new(hashmap! {})),
             special: Rc::new(RefCell::new(hashmap! {})),
             device: Rc::new(RefCell::new(Some(Device::new(0)))),
+            include_paths: Rc::new(RefCell::new(BTreeSet::new())),
         }
     }
 }
